@@ -623,6 +623,16 @@ def rule_g(ctx: Context, R: Reporter):
                 R.check("C07.g", f"{fi.short}: log-likelihood values are stored as the user's likelihood returned them", False, fi, c,
                         msg=f"{fi.short}: `{unparse(c)[:70]}` rewrites log-likelihood values between the user's callable and storage (numpy's nan_to_num also maps -inf to -1.8e308 and NaN to 0.0): "
                             f"a stored logL is no longer what the likelihood returns at the stored x", key=f"logl-rewritten:{norm_text(c)[:50]}")
+        # shape rewriting of per-particle results: squeeze without an axis drops the particle axis of a batch of one
+        if any(_is_user_like(c) for c in calls_in(fi.node)):
+            for c in calls_in(fi.node):
+                nm = ctx.res.external_name(fi, c) or ""
+                is_sq = (nm == "numpy.squeeze" and len(c.args) == 1 and not any(k.arg == "axis" for k in c.keywords)) or \
+                        (isinstance(c.func, ast.Attribute) and c.func.attr == "squeeze" and not c.args and not c.keywords and not nm.startswith("numpy."))
+                if is_sq:
+                    R.check("C07.g", f"{fi.short}: per-particle results keep their particle axis", False, fi, c,
+                            msg=f"{fi.short}: `{unparse(c)[:60]}` squeezes every singleton axis: for a batch of one particle the particle axis itself is dropped and the blobs no "
+                                f"longer have one row per particle (a valid configuration fails or pairs rows wrongly)", key=f"squeeze-all-axes:{fi.short}")
     R.floor("C07.g", "functions on the likelihood evaluation chain", n_fn, 3)
     R.check("C07.g", f"no value-rewriting numpy call is applied to log-likelihoods in {n_fn} functions on the evaluation chain", True, None, None, key="scan", loc="tempest/")
 
